@@ -64,11 +64,26 @@ theorem ok_default_ns_attribute :
           [.elem (none, ['c']) [((some urnA, ['y']), ['2'])] []]) := by
   rfl
 
-/-- witness 3 (c03-reserved-prefix): user prefix `xml` bound to another namespace is passed through -/
-theorem cx_reserved_prefix :
-    ((nativeWrite tblNsEnv {} [(some ['x', 'm', 'l'], urnA)]
-      [.start (inA ['R']), .end_ (inA ['R'])]).toOption.map nsWellFormed) = some false := by
+/-- repaired (PENDING-c03d-01, was finding c03-reserved-prefix): a user prefix map that binds `xml`
+to another namespace is rejected with `XmlWriterError` before anything is written -/
+theorem ok_reserved_prefix_rejected :
+    nativeWrite tblNsEnv {} [(some ['x', 'm', 'l'], urnA)]
+      [.start (inA ['R']), .end_ (inA ['R'])] = .error .xmlWriterError := by
   rfl
+
+/-- repaired (PENDING-c03d-01): *every* user prefix map with an entry that cannot be declared
+(prefix not an NCName, prefix `xmlns`, `xml` bound to another namespace, the XML namespace bound
+to another prefix, the xmlns namespace) is rejected with `XmlWriterError`, whatever the events -/
+theorem invalid_prefix_rejected (cfg : Cfg) (m : List (Pfx × Str)) (es : List Ev)
+    (h : prefixesValid tblNsEnv (serializerNsMap m) = false) :
+    nativeWrite tblNsEnv cfg m es = .error .xmlWriterError := by
+  simp [nativeWrite, handlerRun, h, gRun]
+
+/-- the hypothesis holds e.g. for the XML namespace bound to a prefix other than `xml`, and for a
+prefix with a space -/
+example : prefixesValid tblNsEnv (serializerNsMap [(some ['p'], Tables.nsXmlUri)]) = false
+    ∧ prefixesValid tblNsEnv (serializerNsMap [(some ['a', ' ', 'b'], urnA)]) = false := by
+  constructor <;> decide +kernel
 
 /-- repaired (PENDING-03, was finding c03-consecutive-text): consecutive text chunks are written
 in order inside the element (the second used to be written after the end tag) -/
@@ -127,9 +142,9 @@ theorem ok_standard_prefix_user_bound :
 /-- the full-strength statement is false of the code as it stands -/
 theorem write_correct_fails : ¬ WriteCorrect := by
   intro h
-  obtain ⟨toks, h1, h2⟩ := h {} [(some ['x', 'm', 'l'], urnA)]
-    [.start (inA ['R']), .end_ (inA ['R'])] (.elem (some urnA, ['R']) [] []) (by rfl)
-  have h3 := cx_reserved_prefix
+  obtain ⟨toks, h1, h2⟩ := h {} [] [.start ['M'], .data (str [Char.ofNat 1]), .end_ ['M']]
+    (.elem (none, ['M']) [] [.text [Char.ofNat 1]]) (by rfl)
+  have h3 := cx_nonxml_chars
   rw [h1] at h3
   simp [Except.toOption, nsWellFormed, h2] at h3
 
@@ -172,7 +187,7 @@ theorem write_denotes_sax_tree_partial (cfg : Cfg) (hcfg : plainCfg cfg = true)
   have hind : cfg.indent = none := by
     simp only [plainCfg, Bool.and_eq_true, Option.isNone_iff_eq_none] at hcfg
     exact hcfg.1.1
-  exact ⟨toks, cs, node, h1, handlerRun_native_document tblNsEnv cfg hind m q attrs kids cs hcs, h2, h3⟩
+  exact ⟨toks, cs, node, h1, handlerRun_native_document tblNsEnv cfg hind m q attrs kids cs (Proofs.UserMap.userMapOK_valid tblNsEnv m hm) hcs, h2, h3⟩
 
 /-- **write_infoset (partial)**: if moreover the values need no namespace
 context (`plainContent`: no QName values), the document denotes exactly the
@@ -248,19 +263,21 @@ theorem tree_writer_defined (cfg : Cfg) (hcfg : plainCfg cfg = true)
 denote exactly the tree of the events, whatever the user prefix map is. -/
 theorem handler_denotes_events_partial (cfg : Cfg) (hcfg : plainCfg cfg = true)
     (m : List (Pfx × Str)) (q : Str) (attrs : List (Str × Val)) (kids : Content)
+    (hv : prefixesValid tblNsEnv (serializerNsMap m) = true)
     (hplain : plainContent (.child q attrs kids .nil) = true)
     (hdef : treeWriterDefined tblNsEnv cfg m q attrs kids = true) :
     ∃ calls t, handlerRun tblNsEnv cfg false m (document q attrs kids) = (calls, none)
       ∧ saxTree calls = some t ∧ eventsTree tblNsEnv cfg (document q attrs kids) = some t := by
   obtain ⟨cs, hcs⟩ := Option.isSome_iff_exists.mp hdef
   obtain ⟨node, h4, h5⟩ := eventsTree_document tblNsEnv cfg hcfg m q attrs kids hplain cs hcs
-  exact ⟨cs, node, handlerRun_document tblNsEnv cfg m q attrs kids cs hcs, h5, h4⟩
+  exact ⟨cs, node, handlerRun_document tblNsEnv cfg m q attrs kids cs hv hcs, h5, h4⟩
 
 /-- `treeWriterDefined` and `plainContent` hold e.g. for mixed content with a colliding user prefix
-(the handler theorem needs no `userMapOK`) -/
+(the handler theorem needs no `userMapOK`, only a prefix map the handler accepts) -/
 example :
     let m : List (Pfx × Str) := [(some ['n', 's', '1'], urnA)]
     let kids : Content := .data (str ['a']) (.child (inB ['c']) [(inA ['k'], str ['v'])] .nil (.data (str ['b']) .nil))
+    prefixesValid tblNsEnv (serializerNsMap m) = true ∧
     plainContent (.child (inB ['R']) [] kids .nil) = true ∧ treeWriterDefined tblNsEnv {} m (inB ['R']) [] kids = true := by
   decide +kernel
 
